@@ -49,35 +49,50 @@ type LCase struct {
 
 func eccentricArc(segs []oracle.Seg) bool {
 	for _, s := range segs {
-		if s.Cmd == oracle.ArcTo {
-			rx, ry := s.Args[0], s.Args[1]
-			ratio := math.Min(rx, ry) / math.Max(rx, ry)
-			if ratio < 0.5 && math.Abs(s.ArcOf().Dth) > math.Pi/2 || ratio < 0.15 {
-				return true // long arcs of eccentric ellipses, and needle ellipses at any sweep
-			}
+		if eccSeg(s) {
+			return true
 		}
 	}
 	return false
 }
 
-// hasCusp reports whether a Bézier segment of the path has a (near) cusp: minimal speed below 10 % of the maximal.
+// eccSeg: long arcs of eccentric ellipses, and needle ellipses at any sweep
+func eccSeg(s oracle.Seg) bool {
+	if s.Cmd != oracle.ArcTo {
+		return false
+	}
+	rx, ry := s.Args[0], s.Args[1]
+	ratio := math.Min(rx, ry) / math.Max(rx, ry)
+	return ratio < 0.5 && math.Abs(s.ArcOf().Dth) > math.Pi/2 || ratio < 0.15
+}
+
+// hasCusp reports whether a Bézier segment of the path comes near a cusp: minimal speed below 20 % of the maximal.
+// Measured over 300 000 random quadratic and cubic Béziers on the generator's lattice (worst cut error of SplitAt at
+// nine positions relative to the segment's length, worst relative error of Length), by min/max speed:
+// [0,.05) 7.2 % / 5.7 %, [.05,.1) 4.1 % / 3.1 %, [.1,.15) 2.9 % / 2.3 %, [.15,.2) 1.9 % / 1.5 %, [.2,.25) 1.2 % / 1.0 %,
+// [.25,.3) 0.8 % / 0.5 %, above 0.3 below 0.5 % / 0.3 %.
 func hasCusp(segs []oracle.Seg) bool {
 	for _, s := range segs {
-		if s.Cmd == oracle.QuadTo || s.Cmd == oracle.CubeTo {
-			mn, mx := math.Inf(1), 0.0
-			prev := s.Eval(0)
-			for i := 1; i <= 400; i++ {
-				q := s.Eval(float64(i) / 400)
-				v := q.Dist(prev)
-				mn, mx = math.Min(mn, v), math.Max(mx, v)
-				prev = q
-			}
-			if mn < 0.1*mx {
-				return true
-			}
+		if cuspSeg(s) {
+			return true
 		}
 	}
 	return false
+}
+
+func cuspSeg(s oracle.Seg) bool {
+	if s.Cmd != oracle.QuadTo && s.Cmd != oracle.CubeTo {
+		return false
+	}
+	mn, mx := math.Inf(1), 0.0
+	prev := s.Eval(0)
+	for i := 1; i <= 400; i++ {
+		q := s.Eval(float64(i) / 400)
+		v := q.Dist(prev)
+		mn, mx = math.Min(mn, v), math.Max(mx, v)
+		prev = q
+	}
+	return mn < 0.2*mx
 }
 
 func checkLength(c LCase, r *vf.R) error {
@@ -128,7 +143,7 @@ func checkLength(c LCase, r *vf.R) error {
 				mn, mx = math.Min(mn, v), math.Max(mx, v)
 				prev = q
 			}
-			if mn < 0.1*mx {
+			if mn < 0.2*mx {
 				cusp = true
 			}
 		}
@@ -233,9 +248,12 @@ func checkSplit(c SCase, r *vf.R) error {
 	if eccentricArc(segs) && r.Excluded("F09b", true) {
 		checkPositions = false // pieces must still lie on the path, cover it and add up to its length
 	}
+	skipLsum := false
 	if hasCusp(segs) && r.Excluded("F09c", true) {
-		// arc-length inversion over a (near) cusp is off by a few percent: only totality is checked
-		return nil
+		// arc-length inversion and Length over a (near) cusp are off by a few percent: the pieces must still lie on
+		// the path, follow each other, cover it and add up to its true length
+		checkPositions = false
+		skipLsum = true
 	}
 	// expected cuts: distinct positions strictly inside (0, L)
 	sorted := append([]float64(nil), ts...)
@@ -321,17 +339,37 @@ func checkSplit(c SCase, r *vf.R) error {
 	for _, pc := range pieces {
 		lsum += pc.Length()
 	}
-	if math.Abs(lsum-L) > 0.02*L {
+	if math.Abs(lsum-L) > 0.02*L && !skipLsum {
 		return vf.Errorf("Length() of the pieces sums to %v, Length() of the path is %v", lsum, L)
 	}
 	// cut positions: cumulative true length at the end of piece k vs requested position
-	if len(pieces) == len(cuts)+1 && checkPositions {
+	// with a segment of a finding class in the path, the cuts before the first such segment are still checked
+	// (against the requested arc length itself: Length() of the whole path is not reliable then)
+	firstHard := math.Inf(1)
+	if !checkPositions {
+		acc := 0.0
+		for i, s := range segs {
+			if eccSeg(s) || cuspSeg(s) {
+				firstHard = acc
+				break
+			}
+			acc += truelen[i]
+		}
+	}
+	if len(pieces) == len(cuts)+1 {
 		cum := 0.0
 		for k := 0; k < len(cuts); k++ {
 			cum += pieceLen[k]
 			// containing segment (by true cumulative length)
 			// requested position is measured in the library's own length: scale to the true length
 			want := cuts[k] / L * total
+			if !checkPositions {
+				want = cuts[k]
+				if want > firstHard-0.05*want-1e-6*size {
+					break
+				}
+				r.Class("strict-cut-before-first-hard-segment")
+			}
 			acc, seglen, cutCurved := 0.0, 0.0, false
 			for i := range segs {
 				if truelen[i] > 0 && want <= acc+truelen[i]+1e-9 {
